@@ -486,12 +486,12 @@ func init() {
 
 	planTable["C30"] = func(q bool) *Plan {
 		p := &Plan{Level: "model_checking", Engine: "E-sched + E-crash",
-			Text:      "Two (three) Sequence objects on one key with bandwidth 2, each calling Next three times (retrying on error, optionally Release in between) under every interleaving up to the preemption bound of the lease transactions (points at read-timestamp wait, after the conflict check / timestamp allocation and at the lease assignment): every returned number is unique across objects, strictly increasing per object, and a Sequence object created afterwards continues above everything handed out. Crash part: a history of Next/Release calls with every persistence step as a crash point; after recovery GetSequence+Next never returns a number handed out before the crash.",
+			Text:      "Two (three) Sequence objects on one key with bandwidth 2, each calling Next three times (retrying on error, optionally Release in between) under every interleaving up to the preemption bound of the lease transactions (points at read-timestamp wait, after the conflict check / timestamp allocation and at the lease assignment): every returned number is unique across objects, strictly increasing per object, and a Sequence object created afterwards continues above everything handed out. Crash part: a history of Next/Release calls with every persistence step as a crash point; after recovery GetSequence+Next never returns a number handed out before the crash. The same two-object scenario with Options.DetectConflicts off (bound 1).",
 			Note:      "Bandwidth 2 so that every second Next runs a lease transaction; lease transactions of different objects conflict with each other.",
 			Technique: "stateless model checking (controlled scheduler, preemption-bounded DFS); crash-point enumeration",
 			Rule:      "schedules up to the bound; distinct = distinct tuples of returned numbers"}
 		if q {
-			p.Stages = []Stage{sched("c30seq", 2, 16, 40, prm("objects", 2)), sched("c30seq", 1, 16, 30, prm("objects", 2, "release", true)), sched("c30seq", 2, 16, 30, prm("objects", 2, "release", true)), sched("c30seq", 3, 16, 30, prm("objects", 2))}
+			p.Stages = []Stage{sched("c30seq", 2, 16, 40, prm("objects", 2)), sched("c30seq", 1, 16, 30, prm("objects", 2, "release", true)), sched("c30seq", 2, 16, 30, prm("objects", 2, "release", true)), sched("c30seq", 3, 16, 30, prm("objects", 2)), sched("c30seq", 1, 16, 20, prm("objects", 2, "no_conflict_detection", true))}
 		} else {
 			p.Stages = []Stage{sched("c30seq", 3, 16, 600, prm("objects", 2)), sched("c30seq", 2, 16, 600, prm("objects", 3)), sched("c30seq", 2, 16, 600, prm("objects", 2, "release", true))}
 		}
